@@ -159,7 +159,7 @@ pub fn run(cfg: &Cfg) -> i32 {
         ctx.count("enum3_raw_placements", raw);
         ctx.count("enum3_valid_positions", valid);
         ctx.count("enum3_checked", valid / stride);
-        common::histories(ctx, seedf(1), cfg.per_shard(24_000, 600_000), 4, 40, None, &visit)?;
+        common::histories(ctx, seedf(1), cfg.per_shard(60_000, 1_200_000), 4, 40, None, &visit)?;
         Ok(())
     });
     engine::finish(
